@@ -346,6 +346,24 @@ def encode_shape_ok():
     return 'bool', cbool(ok)
 
 
+def dumps_ascii_only():
+    """the data text of a frame is printable ASCII: encode_msg_frame has exactly one json.dumps call, with the data as
+    only argument - no ensure_ascii=False (nor any other keyword, nor **kw) that would hand non-ASCII characters, among
+    them lone surrogates made by json.loads from an escape like \\ud800, through to str.encode, which raises on them;
+    and the one str.encode call has the plain form .encode('utf-8') (no error handler argument)"""
+    f = find_func(parse(F_IF), 'encode_msg_frame')
+    dumps = [c for c in walk_type(f, ast.Call) if nows(c.func) in ('json.dumps', 'dumps')]
+    encs = [c for c in walk_type(f, ast.Call) if isinstance(c.func, ast.Attribute) and c.func.attr == 'encode']
+    ok = (len(dumps) == 1 and nows(dumps[0].func) == 'json.dumps' and len(dumps[0].args) == 1 and not dumps[0].keywords
+          and not isinstance(dumps[0].args[0], ast.Starred)
+          and len(encs) == 1 and len(encs[0].args) == 1 and not encs[0].keywords
+          and isinstance(encs[0].args[0], ast.Constant) and encs[0].args[0].value == 'utf-8')
+    # the name json is the standard library module, imported plainly
+    imports = [a for n in parse(F_IF).body if isinstance(n, ast.Import) for a in n.names]
+    ok = ok and any(a.name == 'json' and a.asname is None for a in imports)
+    return 'bool', cbool(ok)
+
+
 # ------------------------------------------------------------------ interface/tcp.py
 def _tcp():
     return find_class(parse(F_TCP), 'TCPRequestHandler')
@@ -484,7 +502,7 @@ def one_send_per_result():
 
 FACTS = [IDENTREQUEST, IDENTREPLY, ERRORPREFIX, HELPREQUEST, HELPREPLY, request2reply, help_msgs,
          handler_table, ident_alias, internal_prefix, internal_names, internal_error_class, dispatch_by_getattr, unhandled_error_class, handle_request_under_lock,
-         error_names, EOL, get_msg_splits_first_eol, decode_split_max, decode_tail_ok, encode_shape_ok,
+         error_names, EOL, get_msg_splits_first_eol, decode_split_max, decode_tail_ok, encode_shape_ok, dumps_ascii_only,
          MESSAGE_READ_SIZE, ingest_appends, next_message_shape_ok, sendall_in_send_lock,
          decode_error_name, generic_error_name, secop_error_uses_name, error_echo_fields, error_split_max,
          help_before_dispatch, details_cleared_unless_detailed, one_send_per_result]
